@@ -26,6 +26,24 @@ func init() {
 		c, b := bitmap.Rank128(ws, idx, a[1].I32())
 		return L(I32(c), I32(b))
 	}
+	// "held" variants: the index is built, then indexes of a decoy bitmap of the same length are built,
+	// and only then is the first index queried - an index must not alias state that a later build overwrites
+	Exec["bitmap.Rank64/held"] = func(a []V) string {
+		ws := a[0].U64s()
+		idx := bitmap.IndexRank64(ws, a[1].Bool())
+		bitmap.IndexRank64(a[3].U64s(), a[1].Bool())
+		bitmap.IndexRank64(a[3].U64s(), !a[1].Bool())
+		c, b := bitmap.Rank64(ws, idx, a[2].I32())
+		return L(I32(c), I32(b))
+	}
+	Exec["bitmap.Rank128/held"] = func(a []V) string {
+		ws := a[0].U64s()
+		idx := bitmap.IndexRank128(ws)
+		bitmap.IndexRank128(a[2].U64s())
+		bitmap.IndexRank128(a[2].U64s())
+		c, b := bitmap.Rank128(ws, idx, a[1].I32())
+		return L(I32(c), I32(b))
+	}
 	Register("C01", genC01)
 }
 
@@ -77,6 +95,25 @@ func genC01(g *Gen) {
 		g.Do("bitmap.IndexRank64", L(w, "0"), key)
 		g.Do("bitmap.IndexRank64", L(w, "1"), key)
 		g.Do("bitmap.IndexRank128", L(w), key)
+	}
+
+	// (0) held indexes over ASCENDING bitmap lengths 1..70, first thing in the run: an index that aliases
+	// a reused buffer shows when the buffer's capacity boundary is crossed, which depends on the order of sizes
+	for n := 1; n <= 70; n++ {
+		ws := g.R.Words(n)
+		decoy := make([]uint64, n)
+		for i := range decoy {
+			decoy[i] = ^uint64(0)
+		}
+		for q := 0; q < 4; q++ {
+			i := g.R.Intn(64 * n)
+			if q == 0 {
+				i = 64*n - 1
+			}
+			g.Stat("held-index-ascending")
+			g.Do("bitmap.Rank64/held", L(U64s(ws), B(q&1 == 1), Int(i), U64s(decoy)), rankKey(ws, i))
+			g.Do("bitmap.Rank128/held", L(U64s(ws), Int(i), U64s(decoy)), rankKey(ws, i))
+		}
 	}
 
 	// (1) all-zero / all-one bitmaps of 0..5 words: every position
@@ -154,6 +191,12 @@ func genC01(g *Gen) {
 				i = 64*n - 1
 			}
 			rankAll(ws, i, fmt.Sprintf("rand-nw%02d", (n+9)/10*10))
+			if q < 3 {
+				decoy := U64s(g.R.Words(n))
+				g.Stat("held-index")
+				g.Do("bitmap.Rank64/held", L(U64s(ws), B(g.R.Bool()), Int(i), decoy), rankKey(ws, i))
+				g.Do("bitmap.Rank128/held", L(U64s(ws), Int(i), decoy), rankKey(ws, i))
+			}
 		}
 	}
 }
